@@ -17,6 +17,7 @@ CONSTANTS
     Herr = TRUE
 INVARIANT EventStreamsWellFormed
 INVARIANT AgreeWhenBothActive
+INVARIANT LimitsAgree
 INVARIANT ServerConnectionsAreAcknowledged
 INVARIANT ClientConnectionsEchoItsNonce
 INVARIANT Limits
